@@ -1324,7 +1324,8 @@ def describe_path(path):
     return out
 
 
-RX_ATTRS = ('snr', 'osnr_ase', 'osnr_ase_01nm', 'snr_01nm', 'osnr_nli', 'chromatic_dispersion', 'pmd', 'pdl', 'latency')
+RX_ATTRS = ('snr', 'osnr_ase', 'osnr_ase_01nm', 'snr_01nm', 'osnr_nli', 'chromatic_dispersion', 'pmd', 'pdl', 'latency',
+            'raw_snr', 'raw_osnr_ase', 'raw_snr_01nm', 'raw_osnr_ase_01nm', 'baud_rate', 'tx_power')
 
 
 def run_real(eq, req, path, chs, grid=None):
@@ -1347,7 +1348,7 @@ def run_real(eq, req, path, chs, grid=None):
         r.f_min, r.f_max, r.spacing, r.baud_rate, r.roll_off, r.tx_osnr, r.tx_power, r.offset_db = grid
     idmap = {ident(c): c['id'] for c in chs}
     pos = {id(el): k for k, el in enumerate(p)}
-    obs = {'snaps': [], 'seen': [], 'filter': None, 'exc': None}
+    obs = {'snaps': [], 'seen': [], 'upd': [], 'filter': None, 'exc': None}
     classes = [E.Transceiver, E.Roadm, E.Fused, E.Fiber, E.RamanFiber, E.Edfa, E.Multiband_amplifier]
     orig_call = {cl: cl.__dict__['__call__'] for cl in classes if '__call__' in cl.__dict__}
     orig_prop = E.Edfa.propagate
@@ -1367,6 +1368,14 @@ def run_real(eq, req, path, chs, grid=None):
         orig_prop(self, si)
         obs['seen'].append((id(self), ids_of(si, idmap)))
 
+    orig_upd = E.Transceiver.update_snr
+
+    def wupd(self, *args):
+        k = pos.get(id(self))
+        if k is not None:
+            obs['upd'].append((k, [None if a is None else np.array(a, dtype=float).reshape(-1) for a in args]))
+        return orig_upd(self, *args)
+
     def wfilter(pth, equipment, si):
         a = ids_of(si, idmap)
         out = orig_filter(pth, equipment, si)
@@ -1380,6 +1389,7 @@ def run_real(eq, req, path, chs, grid=None):
         for cl, fn in orig_call.items():
             cl.__call__ = wrap_call(cl, fn)
         E.Edfa.propagate = wprop
+        E.Transceiver.update_snr = wupd
         rq.filter_si = wfilter
         try:
             si = rq.propagate(p, r, eq)
@@ -1387,6 +1397,7 @@ def run_real(eq, req, path, chs, grid=None):
             rx = p[-1]
             obs['rx'] = {a: np.array(getattr(rx, a), dtype=float) for a in RX_ATTRS if getattr(rx, a, None) is not None}
             obs['rx_n'] = {a: len(v) for a, v in obs['rx'].items()}
+            obs['rx_labels'] = [str(x) for x in rx.propagated_labels]
             obs['si_num'] = {a: np.array(getattr(si, a), dtype=float) for a in ('pch', 'signal', 'ase', 'nli')}
         except Exception as e:
             obs['exc'] = exc_s(e)
@@ -1395,6 +1406,7 @@ def run_real(eq, req, path, chs, grid=None):
         for cl, fn in orig_call.items():
             cl.__call__ = fn
         E.Edfa.propagate = orig_prop
+        E.Transceiver.update_snr = orig_upd
         rq.filter_si = orig_filter
     # which position does each Edfa object belong to (a per-band amplifier belongs to its Multiband element)
     owner = {}
@@ -1479,6 +1491,7 @@ def oracle_net(case, obs, obs2):
     for a, n in obs.get('rx_n', {}).items():
         if n != len(fout):
             fails.append(('receiver_arrays', f'receiver.{a} has {n} entries for {len(fout)} channels'))
+    fails += oracle_receiver(case, obs, fout)
     if obs2 is not None:
         import numpy as np
         if obs2['filter'] != obs['filter'] or obs2.get('out') != obs.get('out') or obs2['exc'] != obs['exc']:
@@ -1490,6 +1503,65 @@ def oracle_net(case, obs, obs2):
                     if v.shape != v2.shape or not np.allclose(v, v2, rtol=1e-9, atol=0, equal_nan=True):
                         fails.append(('order_dependent', f'permuted carrier list changes {grp}.{a}'))
                         break
+    return fails
+
+
+def oracle_receiver(case, obs, fout):
+    """each channel reaches the receiver with its own transmitter data: the per-channel transmitter data the receiving (and
+    the source) transceiver works with, and the figures it derives from them, are those launched for that very channel.
+    The receiver's figures are recomputed here from its raw values, the ROADM add/drop contributions it was given and the
+    LAUNCHED tx_osnr (own formula, math.log10)."""
+    import math
+    fails = []
+    by_id = {c['id']: c for c in case['chs']}
+    if any(i not in by_id for i in fout) or 'rx' not in obs:
+        return fails
+    launched = [by_id[i] for i in fout]
+    n = len(launched)
+    rx = obs['rx']
+    last = len(case['path']) - 1
+
+    def close(a, b, tol=1e-9):
+        return abs(a - b) <= tol * max(1.0, abs(a), abs(b))
+    for attr, key in (('baud_rate', 'b'), ('tx_power', 'txp')):
+        if attr in rx and (len(rx[attr]) != n or any(float(x) != float(c[key]) for x, c in zip(rx[attr], launched))):
+            fails.append(('receiver_tx_data', f'receiver.{attr} is not the launched {key} of each received channel'))
+    if obs.get('rx_labels') is not None and obs['rx_labels'] != [str(c['label']) for c in launched]:
+        fails.append(('receiver_tx_data', 'receiver.propagated_labels are not the launched labels of the received channels'))
+    want_osnr = [float(c['osnr']) for c in launched]
+    upd = {}
+    for k, args in obs.get('upd', []):
+        upd.setdefault(k, []).append(args)
+    for k, name in ((0, 'source transceiver'), (last, 'receiver')):
+        if len(upd.get(k, [])) != 1:
+            fails.append(('receiver_tx_data', f'{name}: update_snr called {len(upd.get(k, []))} times'))
+            continue
+        tx = upd[k][0][-1] if upd[k][0] else None
+        txl = None if tx is None else [float(x) for x in tx]
+        if txl is not None and len(txl) == 1 and n > 1:
+            txl = txl * n
+        if txl is None or len(txl) != n or any(a != b for a, b in zip(txl, want_osnr)):
+            fails.append(('receiver_tx_osnr', f'{name} accounts tx_osnr {None if txl is None else txl[:6]}, launched for these '
+                          f'channels: {want_osnr[:6]}'))
+    # the receiver's figures
+    if len(upd.get(last, [])) == 1 and all(a in rx for a in ('raw_snr', 'raw_osnr_ase', 'raw_snr_01nm', 'raw_osnr_ase_01nm')):
+        roadm = [a for a in upd[last][0][:-1] if a is not None]
+        for j in range(n):
+            lin = 10 ** (-want_osnr[j] / 10)
+            for a in roadm:
+                lin += 10 ** (-float(a[j] if len(a) == n else a[0]) / 10)
+            added = -10 * math.log10(lin)
+            for fig, raw, bw in (('osnr_ase', 'raw_osnr_ase', float(launched[j]['b'])), ('snr', 'raw_snr', float(launched[j]['b'])),
+                                 ('osnr_ase_01nm', 'raw_osnr_ase_01nm', 12.5e9), ('snr_01nm', 'raw_snr_01nm', 12.5e9)):
+                r = float(rx[raw][j])
+                if math.isinf(r) or math.isnan(r):
+                    continue
+                a2 = added - 10 * math.log10(bw / 12.5e9)
+                want = -10 * math.log10(10 ** (-r / 10) + 10 ** (-a2 / 10))
+                if not close(float(rx[fig][j]), want):
+                    fails.append(('receiver_figures', f'receiver.{fig} of channel {fout[j]} is {float(rx[fig][j])!r}; with its own '
+                                  f'tx_osnr {want_osnr[j]} dB it is {want!r}'))
+                    return fails
     return fails
 
 
@@ -1552,6 +1624,10 @@ def net_case1(rng, eq, req, path, label):
         case['chs'] = chs
     else:
         case['chs'] = gen_carriers(rng, bs, nmax=rng.choice([6, 12, 24, 36]))
+        # partitions (one per label) with their own tx_osnr, as a user-defined initial spectrum has; + id/1000 keeps it unique
+        base = {lab: rng.choice([28, 33, 36.5, 40, 40, 45]) for lab in LABELS}
+        for c in case['chs']:
+            c['osnr'] = base[c['label']] + c['id'] * 0.001
         case['perm'] = rng.sample(range(len(case['chs'])), len(case['chs']))
     return case
 
